@@ -200,6 +200,11 @@ pub fn topics_of<T: Topics>(t: &T) -> Buf {
     t.ser_topics(&crate::Env, &mut o);
     o
 }
+pub fn args_of<T: ConstructorArgs>(t: &T) -> Buf {
+    let mut o = Buf::new();
+    t.ser_args(&crate::Env, &mut o);
+    o
+}
 pub fn val_of<T: IntoVal<crate::Env, Val>>(t: &T) -> Val {
     t.into_val(&crate::Env)
 }
